@@ -1,6 +1,7 @@
 // Native replay for C02 against the REAL STIR libraries of /repo's working tree.
 // usage: c02_replay range            out-of-range requests must be reported as errors and touch no bin
 //        c02_replay header <dir>     header + data written with several segment orders read back with equal geometry and values (needs STIR_CONFIG_DIR)
+//        c02_replay visible <dir>    file-backed data, writer kept open: after every write call an independent reader of the file sees the values
 //        c02_replay paths            values written through one access path are read back through the others, nothing else changes
 // exit 0: property holds on everything tried; exit 1 + "CONFIRMED ..." line: violated
 #include "stir/ProjDataInMemory.h"
@@ -182,12 +183,93 @@ static int header(const char* dir)
   return 0;
 }
 
+// "written values are visible to an independent reader of the file as soon as each write call returns":
+// file-backed data, the writer stays open; after each write call the file is read by a second, independent reader
+static bool reader_sees(const std::string& filename, const Ref& ref, const char* after)
+{
+  shared_ptr<ProjData> in = ProjData::read_from_file(filename + ".hs");
+  ProjDataInMemory mem(*in);
+  const ProjDataInfo& pi = *mem.get_proj_data_info_sptr();
+  for (int s = pi.get_min_segment_num(); s <= pi.get_max_segment_num(); ++s)
+    for (int a = pi.get_min_axial_pos_num(s); a <= pi.get_max_axial_pos_num(s); ++a)
+      for (int v = pi.get_min_view_num(); v <= pi.get_max_view_num(); ++v)
+        for (int t = pi.get_min_tangential_pos_num(); t <= pi.get_max_tangential_pos_num(); ++t)
+          {
+            Bin b(s, v, a, t);
+            const float got = mem.get_bin_value(b);
+            Ref::const_iterator it = ref.find(key(b));
+            const float want = it == ref.end() ? 0.F : it->second;
+            if (got != want)
+              {
+                std::printf("CONFIRMED ProjDataInterfile (writer still open) after %s returned: independent reader of the file sees %g in bin (seg %d, ax %d, view %d, tang %d), written value %g\n",
+                            after, got, s, a, v, t, want);
+                return false;
+              }
+          }
+  return true;
+}
+static int visible(const char* dir)
+{
+  shared_ptr<ProjDataInfo> info = make_info();
+  shared_ptr<ExamInfo> exam(new ExamInfo);
+  exam->imaging_modality = ImagingModality::PT;
+  const std::vector<int> seq = { 1, -2, 0, 2, -1 };
+  for (int order = 0; order < 2; ++order)
+    {
+      const std::string filename = std::string(dir) + "/c02_vis_" + std::to_string(order);
+      ProjDataInterfile out(exam, info, filename, std::ios::in | std::ios::out | std::ios::trunc, seq,
+                            order ? ProjDataFromStream::Segment_View_AxialPos_TangPos : ProjDataFromStream::Segment_AxialPos_View_TangPos);
+      const ProjDataInfo& pi = *info;
+      Ref ref;
+      float x = 1.F;
+      // whole data set through set_segment so that the file has its full size
+      for (int s = pi.get_min_segment_num(); s <= pi.get_max_segment_num(); ++s)
+        {
+          SegmentBySinogram<float> seg = info->get_empty_segment_by_sinogram(s);
+          for (int a = pi.get_min_axial_pos_num(s); a <= pi.get_max_axial_pos_num(s); ++a)
+            for (int v = pi.get_min_view_num(); v <= pi.get_max_view_num(); ++v)
+              for (int t = pi.get_min_tangential_pos_num(); t <= pi.get_max_tangential_pos_num(); ++t)
+                { seg[a][v][t] = x; ref[key(Bin(s, v, a, t))] = x; x += 1.F; }
+          if (s % 2 == 0) out.set_segment(seg); else out.set_segment(SegmentByView<float>(seg));
+          // only complete once all segments are written: compare the segments written so far
+        }
+      if (!reader_sees(filename, ref, order ? "set_segment (view order)" : "set_segment (sinogram order)")) return 1;
+      for (int s = pi.get_min_segment_num(); s <= pi.get_max_segment_num(); ++s)
+        {
+          // one viewgram, one sinogram, one bin: each observed straight after the call
+          const int v0 = pi.get_max_view_num() - 1, a0 = pi.get_max_axial_pos_num(s);
+          Viewgram<float> vg = info->get_empty_viewgram(v0, s);
+          for (int a = pi.get_min_axial_pos_num(s); a <= pi.get_max_axial_pos_num(s); ++a)
+            for (int t = pi.get_min_tangential_pos_num(); t <= pi.get_max_tangential_pos_num(); ++t)
+              { vg[a][t] = x; ref[key(Bin(s, v0, a, t))] = x; x += 1.F; }
+          out.set_viewgram(vg);
+          if (!reader_sees(filename, ref, "set_viewgram")) return 1;
+          Sinogram<float> sg = info->get_empty_sinogram(a0, s);
+          for (int v = pi.get_min_view_num(); v <= pi.get_max_view_num(); ++v)
+            for (int t = pi.get_min_tangential_pos_num(); t <= pi.get_max_tangential_pos_num(); ++t)
+              { sg[v][t] = x; ref[key(Bin(s, v, a0, t))] = x; x += 1.F; }
+          out.set_sinogram(sg);
+          if (!reader_sees(filename, ref, "set_sinogram")) return 1;
+          Bin b(s, pi.get_min_view_num() + 1, pi.get_min_axial_pos_num(s), pi.get_max_tangential_pos_num(), 0, x);
+          ref[key(b)] = x; x += 1.F;
+          out.set_bin_value(b);
+          if (!reader_sees(filename, ref, "set_bin_value")) return 1;
+        }
+    }
+  return 0;
+}
+
 int main(int argc, char** argv)
 {
   if (argc < 2) return 2;
   if (!strcmp(argv[1], "header"))
     {
       try { const int rc = header(argc > 2 ? argv[2] : "."); if (!rc) std::printf("REPLAY ok\n"); return rc; }
+      catch (...) { std::printf("exception\n"); return 3; }
+    }
+  if (!strcmp(argv[1], "visible"))
+    {
+      try { const int rc = visible(argc > 2 ? argv[2] : "."); if (!rc) std::printf("REPLAY ok\n"); return rc; }
       catch (...) { std::printf("exception\n"); return 3; }
     }
   try
